@@ -36,9 +36,10 @@ def short(node, n=110):
 
 
 class FuncInfo:
-    __slots__ = ("name", "qualname", "module", "cls", "node", "role", "prop")
+    __slots__ = ("name", "qualname", "module", "cls", "node", "role", "prop", "inlined_helpers")
 
     def __init__(self, name, qualname, module, cls, node, role="function", prop=None):
+        self.inlined_helpers = []
         self.name = name
         self.qualname = qualname  # e.g. Wire.connect_pin / Instance.reference.setter
         self.module = module
